@@ -109,6 +109,26 @@ def path_form_cases(tier, seed):
     return out
 
 
+def value_kind_cases(tier, seed):
+    """unstorable values of OTHER kinds (dictionary, set, arbitrary object, function) at every kind of position — judged by the
+    property alone (the Lean value grammar does not carry them)"""
+    rng = random.Random(seed * 7919 + 172)
+    o = base_obj(rng)
+    prev_single = {"single": rand_obj(rng, nd=1, hist=1, dtype="f8")}
+    out = []
+    for kind in ("dict", "set", "object", "function"):
+        bad = {"t": "pyobj", "v": kind}
+        for pos in ("attrs", "dattrs", "hist"):
+            m = copy.deepcopy(o)
+            if pos == "hist":
+                m["hist"][1][1].append(["bad", bad])
+            else:
+                m[pos].insert(1, ["bad_" + kind, bad])
+            for prev in (None, prev_single):
+                out.append({"single": m, "prev": prev, "overwrite": True, "label": "obj:%s[%s]" % (pos, kind)})
+    return out
+
+
 def judge(c, i, fails):
     """the property evaluated directly on what the real save did"""
     icls = outcome_class(i)
@@ -189,7 +209,7 @@ def run(tier, seed, escalate=False):
                              "stream": -1, "explained_by_known": False})
             # the property directly
             judge(c, i, fails)
-        pcs = path_form_cases(tier, seed)
+        pcs = path_form_cases(tier, seed) + value_kind_cases(tier, seed)
         for c in pcs:
             judge(c, impl_case(c, work), fails)
     finally:
